@@ -166,6 +166,18 @@ def h_copy(kind, m):
     m.require('copy(meta=<empty>) differs from the original (whose meta is not empty)', Not(cp3 == reg))
     cp4 = reg.copy(visual=RegionVisual())
     m.require('copy(visual=<empty>) has an empty visual', dict(cp4.visual) == {})
+    if kind == 'compound':
+        # a copy with a new first operand differs in exactly that field: meta and visual of the compound stay
+        import regions as R
+        from regions import PixCoord, RegionMeta, RegionVisual
+        other = R.CirclePixelRegion(PixCoord(7.0, 8.0), 2.0, meta=RegionMeta({'label': 'other operand'}), visual=RegionVisual({'color': 'red'}))
+        cp5 = reg.copy(region1=other)
+        m.require('copy(region1=...) of a compound keeps the compound meta and visual',
+                  dict(cp5.meta) == dict(reg.meta) and dict(cp5.visual) == dict(reg.visual) and cp5.region2 == reg.region2 and cp5.region1 == other)
+        via_op = reg.region1 | reg.region2        # a compound that inherited its meta from its first operand
+        cp6 = via_op.copy(region1=other)
+        m.require('copy(region1=...) of an operator-built compound keeps its meta and visual',
+                  dict(cp6.meta) == dict(via_op.meta) and dict(cp6.visual) == dict(via_op.visual))
     cp3.meta['label'] = 'fresh'
     m.require('editing the meta of copy(meta=<empty>) touches neither the original nor its components',
               reg.meta['label'] == 'L' and all(getattr(getattr(cp3, a_, None), 'meta', {}).get('label') != 'fresh' for a_ in ('region1', 'region2')))
